@@ -47,8 +47,11 @@ func genC18(c *Ctx) {
 		"concat 2 frommapent 1,2,3,4 lc 2 fromiter2 100",
 		"merge 2 fromiter2 1,3 fromiter2 2,4",
 		"zip 2 fromiter2 1,2,3 fromiter 4,5,6",
+		"lock 1 lc 1 src 0 1,2,3",
+		"merge 2 map add:1 lock 1 src 0 1,2,3 src 1 4,5",
+		"lock 2 lock 1 fromiter 1,2,3",
 	}
-	specEndings := []string{"collect all nofault", "collect take:1 nofault", "collect take:2 nofault", "collect take:3 nofault", "collect take:4 nofault", "user all err@1", "user all perr@2", "collect all cancel@2", "user all err@4"}
+	specEndings := []string{"collect all cancel@0", "collect all nofault", "collect take:1 nofault", "collect take:2 nofault", "collect take:3 nofault", "collect take:4 nofault", "user all err@1", "user all perr@2", "collect all cancel@2", "user all err@4"}
 	for _, p := range specReusable {
 		for _, e1 := range specEndings {
 			c.Case(true, "SPEC "+strings.Join([]string{p, e1, "collect all nofault"}, " || "))
